@@ -550,6 +550,17 @@ func (w *World) proof(l *LogW, r Req, stored *CP) [][]byte {
 			return append(out, cp[i:]...)
 		case "short":
 			return [][]byte{{1, 2, 3, 4, 5}}
+		case "long64", "long100":
+			// more hashes than any proof between two 64-bit sizes can have (63): well-formed lines, certainly not a valid proof
+			n := 64
+			if r.Pf.Kind == "long100" {
+				n = 100
+			}
+			out := append([][]byte{}, cp...)
+			for len(out) < n {
+				out = append(out, rnd())
+			}
+			return out
 		default: // random
 			n := len(cp)
 			if n == 0 {
